@@ -153,7 +153,7 @@ def main():
         # ---- (b) self-test matrix
         patches = [(p, 'mutant') for p in sorted(glob.glob(os.path.join(V, 'selftest', 'mutants', pid + '_*.diff')))]
         patches += [(p, 'seeded') for p in sorted(glob.glob(os.path.join(V, 'seeded', pid + '_*', 'patch.diff')))]
-        patches += [(p, 'benign') for p in sorted(glob.glob(os.path.join(V, 'selftest', 'benign', pid + '_*.diff')))]
+        patches += [(p, 'benign') for p in sorted(glob.glob(os.path.join(V, 'selftest', 'benign', pid + '_*.diff')) + glob.glob(os.path.join(V, 'selftest', 'benign', 'ALL_*.diff')))]
         nworkers = min(8, max(1, len(patches)))
         tdirs = []
         src_t = os.environ.get('MCMC_TARGET_DIR', os.path.join(V, '.cache', 'target'))
